@@ -17,7 +17,7 @@ Variable g : str.
 
 (* what one iteration of the top-level loop does with a whole definition *)
 Definition STEP (d : def) : Prop :=
-  forall n p T' ws we out vm fm, (n > length (render_def d) + 2)%nat ->
+  forall n p T' ws we out vm fm, (n > 3 * length (render_def d) + 2)%nat ->
   process_scope g (S n) (mkcur p (render_def d ++ cNL :: T')) cNUL vm fm ws we out =
   process_scope g n (mkcur (lastp p (render_def d)) (cNL :: T')) cNUL vm fm
     (match we with Some _ => render_def d ++ cNL :: T' | None => ws end)
@@ -25,7 +25,7 @@ Definition STEP (d : def) : Prop :=
     (match we with Some e => out ++ slice ws e | None => out end).
 
 Lemma STEP_assign n v : var_name_ok n = true -> value_ok v = true ->
-  (forall m p rest endc, (m > length (render_value v) + 2)%nat ->
+  (forall m p rest endc, (m > 3 * length (render_value v) + 2)%nat ->
      env_value g m (mkcur p (render_value v ++ cNL :: rest)) endc
      = Ok (mkcur (lastp p (render_value v)) (cNL :: rest))) ->
   STEP (Assign n v).
@@ -97,8 +97,6 @@ Proof. rewrite process_scope_S. reflexivity. Qed.
 Lemma render_cons d ds : render (d :: ds) = render_def d ++ cNL :: render ds.
 Proof. unfold render. cbn [flat_map]. rewrite <- app_assoc. reflexivity. Qed.
 
-Lemma slice_self s : slice s s = [].
-Proof. unfold slice. now rewrite Nat.sub_diag. Qed.
 
 Definition out_of (r : res (cur * str)) : option str :=
   match r with Ok (_, o) => Some o | _ => None end.
@@ -106,7 +104,7 @@ Definition out_of (r : res (cur * str)) : option str :=
 Lemma TL ds : Forall STEP ds ->
   forall n p ws we out A vm fm,
   ws = A ++ (match we with Some e => e | None => render ds ++ [cNUL] end) ->
-  (n > 2 * length (render ds ++ [cNUL]))%nat ->
+  (n > 3 * length (render ds ++ [cNUL]))%nat ->
   out_of (process_scope g n (mkcur p (render ds ++ [cNUL])) cNUL vm fm ws we out)
   = Some (out ++ A ++ expected vm fm ds).
 Proof.
@@ -169,6 +167,32 @@ Proof.
   ctest H; reflexivity.
 Qed.
 
+Definition simple_tok (t : tok) : bool :=
+  match t with TLit _ | TDq _ | TAnsi _ => true | _ => false end.
+Lemma simple_follow l : forallb simple_tok l = true -> forallb deep_follow l = true /\ follows l = true.
+Proof.
+  induction l as [|t l IH]; [split; reflexivity|]. cbn [forallb follows]. intros H.
+  apply andb_true_iff in H as [H1 H2]. destruct (IH H2) as [A B]. rewrite A, B.
+  destruct t; try discriminate H1; split; reflexivity.
+Qed.
+Lemma simple_seg_toks l : forallb simple_tok (flat_map seg_tok l) = true.
+Proof.
+  induction l as [|v l IH]; [reflexivity|]. cbn [flat_map]. rewrite forallb_app, IH.
+  destruct v; reflexivity.
+Qed.
+Lemma simple_map_lit s : forallb simple_tok (map TLit s) = true.
+Proof. induction s; [reflexivity|]. cbn. assumption. Qed.
+Lemma simple_elem_toks e : forallb simple_tok (elem_toks e) = true.
+Proof.
+  unfold elem_toks. cbn [forallb simple_tok]. rewrite !forallb_app, simple_map_lit, simple_seg_toks. reflexivity.
+Qed.
+Lemma simple_elems_toks l : forallb simple_tok (elems_toks l) = true.
+Proof.
+  induction l as [|e l IH]; [reflexivity|]. destruct l as [|e2 l]; [apply simple_elem_toks|].
+  change (elems_toks (e :: e2 :: l)) with (elem_toks e ++ TLit cSP :: elems_toks (e2 :: l)).
+  rewrite forallb_app, simple_elem_toks. cbn [forallb simple_tok]. exact IH.
+Qed.
+
 Definition elem_ok (e : str * list vseg) : bool := forallb idx_char (fst e) && forallb elem_seg_ok (snd e).
 
 Lemma elem_toks_spec e : elem_ok e = true ->
@@ -208,7 +232,7 @@ Section Main.
 Variable g : str.
 
 Lemma VAL v : value_ok v = true ->
-  forall m p rest endc, (m > length (render_value v) + 2)%nat ->
+  forall m p rest endc, (m > 3 * length (render_value v) + 2)%nat ->
   env_value g m (mkcur p (render_value v ++ cNL :: rest)) endc
   = Ok (mkcur (lastp p (render_value v)) (cNL :: rest)).
 Proof.
@@ -221,7 +245,8 @@ Proof.
       with (cLP :: (render_toks (elems_toks l) ++ cRP :: cNL :: rest))
       by (cbn; rewrite <- !app_assoc; reflexivity).
     rewrite env_value_S. cbn [suf]. cbn -[walk_escaped env_value]. rewrite ?adv1_cons.
-    rewrite (WEc_all g _ O) by (auto || lia). cbn [bind]. rewrite adv1_cons.
+    destruct (simple_follow _ (simple_elems_toks l)) as [DF FW].
+    rewrite (WEc_all g _ O DF FW) by (auto || lia). cbn [bind]. rewrite adv1_cons.
     rewrite env_value_nl by lia. lastp_norm.
 Qed.
 
@@ -346,6 +371,26 @@ Definition ex_defs : list def :=
         {| s_toks := [TBr [TLit 32;TLit 10;TLit 101;TLit 99;TLit 104;TLit 111;TLit 32;TLit 97;TLit 10;TLit 32]];
            s_sep := 10; s_ws := [] |} ] ].
 
+(*  g () { case $x in a) echo "$y/${z}" $((1+(2))) $(ls $d/'a )') <<< "$(pwd)" ;; esac; }  as bash lays it out *)
+Definition ex_defs2 : list def :=
+  [ Func [103] [32;10;32;32;32;32]
+      [ {| s_toks := [TLit 99;TLit 97;TLit 115;TLit 101;TLit 32;TVar [120];TLit 32;TLit 105;TLit 110;TLit 32];
+           s_sep := 10; s_ws := [32;32;32;32] |};
+        {| s_toks := [TLit 97;TLit 41]; s_sep := 10; s_ws := [32;32;32;32] |};
+        {| s_toks := [TLit 101;TLit 99;TLit 104;TLit 111;TLit 32;
+                      TDqx [TVar [121];TLit 47;TPE [122]];TLit 32;
+                      TArith [TLit 49;TLit 43;TPar [TLit 50]];TLit 32;
+                      TSub [TLit 108;TLit 115;TLit 32;TVar [100];TLit 47;TSq [97;32;41]];TLit 32;THs;TLit 32;
+                      TDqx [TSub [TLit 112;TLit 119;TLit 100]]];
+           s_sep := 10; s_ws := [32;32;32;32] |};
+        {| s_toks := []; s_sep := 59; s_ws := [] |};
+        {| s_toks := []; s_sep := 59; s_ws := [10;32;32;32;32] |};
+        {| s_toks := [TLit 101;TLit 115;TLit 97;TLit 99]; s_sep := 10; s_ws := [] |} ] ].
+Example ex_defs2_ok : forallb def_ok ex_defs2 = true.
+Proof. vm_compute. reflexivity. Qed.
+Example ex_defs2_filter : main_run (render ex_defs2) [] [[103]] false false = MOut [10].
+Proof. vm_compute. reflexivity. Qed.
+
 Example ex_defs_ok : forallb def_ok ex_defs = true.
 Proof. vm_compute. reflexivity. Qed.
 Example ex_filter_blacklist :
@@ -377,10 +422,11 @@ Theorem filter_commutes_refuted_proof :
   /\ run_dump witness_input = digest [10;125;10;90;61;49;10].
 Proof. vm_compute. split; reflexivity. Qed.
 
-(* the here-document with an empty delimiter: the scanner does not terminate (model: out of fuel) *)
-Theorem never_out_of_fuel_refuted_proof :
+(* the here-document with an empty delimiter (an infinite loop before the repair
+   "buff.find(here_word, end_here + max(here_len, 1))"): the function is found and removed *)
+Theorem empty_heredoc_delimiter_proof :
   main_run [102;32;40;41;32;10;123;32;10;32;32;32;32;99;97;116;32;60;60;39;39;10;120;10;10;125;10]
-           [] [[102]] false false = MFuel.
+           [] [[102]] false false = MOut [10].
 Proof. vm_compute. reflexivity. Qed.
 
 (* ---------------------------------------------------------------- the full statement and its refutation *)
